@@ -476,7 +476,13 @@ class BMSMap(Map[BMSNoteList, BMSHitList, BMSHoldList, BMSBpmList], BMSMapMeta):
             ]
         )
 
-        sample_map = {v: k for k, v in self.samples.items()}
+        ln_end_channel = self._ln_end_channel()
+        if no_sample_default == ln_end_channel:
+            raise ValueError(
+                "no_sample_default is the #LNOBJ id, hits would be read as hold tails."
+            )
+        # The #LNOBJ id ends a hold: a hit must never be written with it
+        sample_map = {v: k for k, v in self.samples.items() if k != ln_end_channel}
         channel_map = {v: k for k, v in note_channel_config.items()}
 
         metronome_changes = [b for b in self.bpms if b.metronome != 4]
@@ -500,7 +506,7 @@ class BMSMap(Map[BMSNoteList, BMSHitList, BMSHoldList, BMSBpmList], BMSMapMeta):
         ]
 
         hold_tails = [
-            (snap, channel_map[column], self._ln_end_channel())
+            (snap, channel_map[column], ln_end_channel)
             for snap, column in zip(
                 tm.snaps(self.holds.tail_offset, snapper), self.holds.column
             )
